@@ -465,7 +465,22 @@ func (c *canonizer) inline(fd *ast.FuncDecl, args []ast.Expr, s *pstate, bind fu
 		switch {
 		case o.done == "error":
 			n.done = ""
-			bind(n, []string{"", "NONNIL"})
+			nres := 2
+			if fd.Type.Results != nil {
+				nres = 0
+				for _, f := range fd.Type.Results.List {
+					if len(f.Names) == 0 {
+						nres++
+					} else {
+						nres += len(f.Names)
+					}
+				}
+			}
+			er := make([]string, nres)
+			if nres > 0 {
+				er[nres-1] = "NONNIL"
+			}
+			bind(n, er)
 		case strings.HasPrefix(o.done, "return "):
 			n.done = ""
 			bind(n, append(strings.Split(strings.TrimPrefix(o.done, "return "), "\x00"), "nil"))
